@@ -1447,6 +1447,41 @@ namespace vh
               owner[d] = owner[s];
               return "ok";
             }
+            if (op == "cpa0" || op == "cpax")
+            {
+              // copy-ASSIGN onto a destination that does not already look like the source: a default-constructed State
+              // (cpa0), or a State of a solver built for a different mechanism, hence another Jacobian pattern (cpax)
+              auto s = t.nat();
+              auto d = t.nat();
+              if (!store[s])
+              {
+                store[d].reset();
+                return "ok";
+              }
+              if (s == d)
+                return "ok";
+              if (op == "cpa0")
+                store[d] = std::make_unique<ST>();
+              else
+              {
+                std::vector<micm::Process> chain;
+                for (std::size_t i = 0; i < ns; ++i)
+                  chain.push_back(micm::Process::Create()
+                                      .SetReactants({ sp[i], sp[(i + 1) % ns] })
+                                      .SetProducts({ micm::Yield(sp[(i + 2) % ns], 1.0) })
+                                      .SetRateConstant(micm::UserDefinedRateConstant({ .label_ = "c" + std::to_string(i) })));
+                auto other = BuilderT(params)
+                                 .SetSystem(micm::System(micm::SystemParameters{ .gas_phase_ = micm::Phase{ sp } }))
+                                 .SetReactions(chain)
+                                 .SetNumberOfGridCells(ncell)
+                                 .SetReorderState(false)
+                                 .Build();
+                store[d] = std::make_unique<ST>(other.GetState());
+              }
+              *store[d] = *store[s];
+              owner[d] = owner[s];
+              return "ok";
+            }
             if (op == "cpa")
             {
               auto s = t.nat();
@@ -1564,7 +1599,7 @@ namespace vh
   };
 
   template<std::size_t L>
-  std::string DenseCfg<L>::rates(Tok& t, std::size_t ncell, std::size_t nproc)
+  std::string DenseCfg<L>::rates(Tok& t, std::size_t ncell, std::size_t nproc, bool reuse)
   {
     using DM = typename DenseOf<L>::type;
     using SM = SparseOf<L, false>;
@@ -1664,11 +1699,23 @@ namespace vh
       procs.push_back(pb);
     }
     using B = micm::CpuSolverBuilder<micm::RosenbrockSolverParameters, DM, SM>;
-    auto solver = B(micm::RosenbrockSolverParameters::ThreeStageRosenbrockParameters())
-                      .SetSystem(micm::System(micm::SystemParameters{ .gas_phase_ = micm::Phase{ std::vector<micm::Species>{ a } } }))
-                      .SetReactions(procs)
-                      .SetNumberOfGridCells(ncell)
-                      .Build();
+    B builder(micm::RosenbrockSolverParameters::ThreeStageRosenbrockParameters());
+    builder.SetSystem(micm::System(micm::SystemParameters{ .gas_phase_ = micm::Phase{ std::vector<micm::Species>{ a } } }))
+        .SetNumberOfGridCells(ncell);
+    if (reuse)
+    {
+      // the same builder was used before for another mechanism of the same size (other rate-constant types, parameters
+      // and labels): SetReactions then ASSIGNS the new processes over the old ones
+      std::vector<micm::Process> decoy;
+      for (std::size_t i = 0; i < nproc; ++i)
+        decoy.push_back(micm::Process::Create()
+                            .SetReactants({ a })
+                            .SetRateConstant(i % 2 ? micm::UserDefinedRateConstant({ .label_ = "decoy" + std::to_string(i), .scaling_factor_ = 7.0 })
+                                                   : micm::UserDefinedRateConstant({ .label_ = "other" + std::to_string(i), .scaling_factor_ = 0.125 })));
+      auto first = builder.SetReactions(decoy).Build();
+      (void)first;
+    }
+    auto solver = builder.SetReactions(procs).Build();
     auto state = solver.GetState();
     for (std::size_t c = 0; c < ncell; ++c)
     {
